@@ -191,6 +191,11 @@ def check(prop, tier, repo, seed):
     native_fail = []
     # ---------------- Kani harness families (complete per concrete shape / bounded in lengths; see kani/README.md)
     kani_results = []
+    kani_unexplored, kani_unconfirmed = [], []
+    try:
+        KANI_UNRELIABLE = set(json.load(open(os.path.join(VERIF, "kani", "unreliable.json"))))
+    except Exception:
+        KANI_UNRELIABLE = set()
     if cfg.get("kani"):
         try:
             import kani_run as K
@@ -220,7 +225,25 @@ def check(prop, tier, repo, seed):
                                         "native_replay": r.get("native_replay")})
                     print("FAILING INPUT (kani harness %s, replayed natively: %s): %s" % (r["harness"], (r.get("native_replay") or {}).get("confirmed"), r.get("input_hex")))
             else:
-                undecided.append("kani harness %s: %s" % (r["harness"], r.get("reason", "undecided")))
+                reason = r.get("reason", "undecided") or "undecided"
+                if reason.startswith("timeout") or reason == "out of memory":
+                    # not explored within the budget: says nothing about the property (exit code unaffected, listed in the evidence)
+                    kani_unexplored.append("%s: %s" % (r["harness"], reason))
+                elif (reason.startswith("check failed") or "did not reproduce natively" in reason) and (r["harness"] in KANI_UNRELIABLE or tier == "thorough"):
+                    # CBMC reports a failed check that could not be turned into an input that misbehaves on the real code.  Harnesses known
+                    # to do this on the unchanged tree (symbolic-width imprecision, kani/README.md) are listed in kani/unreliable.json;
+                    # the thorough tier runs the families that contain them and only warns.
+                    kani_unconfirmed.append("%s: %s" % (r["harness"], reason))
+                else:
+                    undecided.append("kani harness %s: %s" % (r["harness"], reason))
+        decided = sum(1 for r in kani_results if r["status"] in ("ok", "fail"))
+        if kani_results and decided * 2 < len(kani_results):
+            undecided.append("kani: only %d of %d harnesses were decided within the budget" % (decided, len(kani_results)))
+        for u in kani_unexplored[:20]:
+            notes.append("kani harness not explored: " + u)
+        for u in kani_unconfirmed[:40]:
+            print("WARNING kani harness reports an unconfirmed failure (no input that misbehaves on the real code): " + u)
+            notes.append("kani unconfirmed failure: " + u)
         for fam, rs in fams.items():
             kinds = {r.get("kind") for r in rs}
             bounded.append({"family": fam, "kind": "/".join(sorted(k for k in kinds if k)), "bound": rs[0].get("bound", ""), "harnesses": len(rs),
